@@ -227,7 +227,7 @@ func run1(t *testing.T, c Case) (res Result) {
 			}
 		}()
 		ttl := time.Duration(0)
-		if c.Scenario == "expiry" || c.Scenario == "expiry-then-commit" || c.Scenario == "expiry-snapshot" || (c.Scenario == "release-during-forwarded-apply" && c.Variant == 2) {
+		if c.Scenario == "expiry" || c.Scenario == "expiry-then-commit" || c.Scenario == "expiry-snapshot" || c.Scenario == "expiry-after-holder-commit" || (c.Scenario == "release-during-forwarded-apply" && c.Variant == 2) {
 			ttl = 2 * time.Second
 		}
 		shortRetention = c.Scenario == "expiry-snapshot"
@@ -394,6 +394,82 @@ func run1(t *testing.T, c Case) (res Result) {
 			}
 			w.checkAll("after-expired-commit")
 			res.Class = "expiry-ok"
+		case "expiry-after-holder-commit":
+			// The holder commits under the lock (in WAL mode its pages stay in its own log), then the lock expires on the
+			// primary without the holder being told. The next transaction comes from the primary and touches other pages:
+			// the holder, which applies it as the replica it is again, must first fold its own log into the database -
+			// an application on the holder reads every page as the primary has it.
+			if err := w.acquire(); err != nil {
+				viol("C13/acquire-failed", "acquire: %v", err)
+				return
+			}
+			if ok, err, step := w.txOn(R, 3, []uint32{2}); !ok {
+				viol("C13/forwarded-commit-failed", "the holder's commit failed at %q: %v", step, err)
+				return
+			}
+			// a second application connection on the holder that stays open: it does not rebuild the wal-index from the
+			// log as a first opener does, it trusts the index it finds - also the one LiteFS publishes after an apply
+			keep := pager.NewConn(R.M, "db", 404, ps)
+			defer keep.Close()
+			if w.wal {
+				if _, err := keep.ReadImageWAL(); err != nil {
+					res.Harness = "long-lived reader: " + err.Error()
+					return
+				}
+			}
+			// TTL 2 s; both nodes look at their clocks every 5 s, each from its own start: here the primary's round comes
+			// first and its writer is quick (the holder's own expiry round has not come yet)
+			lab.Settle(2100 * time.Millisecond)
+			P.DB("db").EnforceHaltLockExpiration(context.Background())
+			if P.DB("db").VerifHaltLockID() != 0 {
+				viol("C13/halt-not-expired", "the halt lock did not expire on the primary (TTL 2 s, 2.1 s elapsed)")
+				return
+			}
+			{
+				cn := pager.NewConn(P.M, "db", 402, ps)
+				var committed bool
+				if w.wal {
+					x := cn.RunWTx(pager.WTx{Frames: []uint32{3}, Outcome: "commit"}, w.img) // page 1 is not rewritten
+					committed = x.Committed
+					if committed {
+						w.img = x.Intended
+					}
+				} else {
+					x := cn.RunRTx(pager.RTx{Mods: []uint32{3}, Final: "DELETE", Outcome: "commit"}, w.img)
+					committed = x.Committed
+					if committed {
+						w.img = x.Intended
+					}
+				}
+				cn.Close()
+				if !committed {
+					viol("C13/writer-after-expiry", "after expiry a local transaction on the primary failed")
+					return
+				}
+			}
+			w.checkAll("expiry-after-holder-commit")
+			for _, n := range []*lab.Node{P, R, w.R2} {
+				rc := pager.NewConn(n.M, "db", 403, ps)
+				if n == R {
+					rc = keep
+				}
+				var got *oracle.Image
+				var err error
+				if w.wal {
+					got, err = rc.ReadImageWAL()
+				} else {
+					got, err = rc.ReadImage()
+				}
+				if n != R {
+					rc.Close()
+				}
+				if err != nil {
+					viol("C13/reader-error/expiry-after-holder-commit", "%s: reading through the mount failed: %v", n.Cfg.Name, err)
+				} else if ok, d := got.Equal(w.img); !ok {
+					viol("C13/reader-image/expiry-after-holder-commit", "%s at %s: an application reads an image that differs from the primary's: %s", n.Cfg.Name, posOf(n), d)
+				}
+			}
+			res.Class = "expiry-after-holder-commit-ok"
 		case "lagging-acquire":
 			// The replica is one transaction behind when it asks for the lock (a long-running reader on its mount keeps
 			// the stream's frame waiting; Variant 1: two transactions). The grant names the primary's position: the
@@ -1424,7 +1500,7 @@ func TestCheck(t *testing.T) {
 		}
 		cases = append(cases, Case{Scenario: "lagging-acquire", WAL: wal, Variant: 0}, Case{Scenario: "lagging-acquire", WAL: wal, Variant: 1},
 			Case{Scenario: "acquire-timeout", WAL: wal}, Case{Scenario: "expiry-snapshot", WAL: wal}, Case{Scenario: "holder-promoted", WAL: wal},
-			Case{Scenario: "halt-over-hot-journal", WAL: wal},
+			Case{Scenario: "halt-over-hot-journal", WAL: wal}, Case{Scenario: "expiry-after-holder-commit", WAL: wal},
 			Case{Scenario: "release-during-forwarded-apply", WAL: wal, Variant: 0}, Case{Scenario: "release-during-forwarded-apply", WAL: wal, Variant: 1},
 			Case{Scenario: "release-during-forwarded-apply", WAL: wal, Variant: 2}, Case{Scenario: "release-during-forwarded-apply", WAL: wal, Variant: 3},
 			Case{Scenario: "release-during-commit", WAL: wal, Variant: 0}, Case{Scenario: "release-during-commit", WAL: wal, Variant: 1}, Case{Scenario: "release-during-commit", WAL: wal, Variant: 2})
